@@ -72,7 +72,7 @@ LEVEL_NOTE = ("Trusted: Coq kernel, extraction, translator harness/translate/c17
               "generated members. Wildcard expansion is modelled per source module (names) and per importing body (binder), not the loader's "
               "recursion over modules (C05/C06/C18). Annotation/default expression text is opaque (C03).")
 MODEL = ("Model.C17_run", "run_C17_all")
-COQ_TARGETS = ["Proofs/C17_agents.vo", "Proofs/C17_bases.vo", "Proofs/C17_pyobj.vo", "Proofs/C17_star.vo", "Model/C17_run.vo"]
+COQ_TARGETS = ["Proofs/C17_agents.vo", "Proofs/C17_bases.vo", "Proofs/C17_pyobj.vo", "Proofs/C17_star.vo", "Proofs/C17_rebind.vo", "Model/C17_run.vo"]
 TRANSLATOR_NAME = "harness/translate/c17_tables.py"
 RULE = ("seeded random importable packages (7-11 modules over 3 nesting levels, every definition form, signatures from C02's count vectors, "
         "plain / multiple / imported / builtin / explicit-object bases, generic and protocol hierarchies (Generic[T], typing.Generic[T], "
@@ -280,6 +280,7 @@ def _shadow_table():
 
 
 SHADOWS = _shadow_table()
+FALLBACK = "-17"          # the value of every fallback assignment (no generated value equals it)
 TAGS = {"core": "c", "_core": "u", "util": "t", "inner": "i", "deep": "d", "leaf": "l", "sub": "s"}
 VALUES = ["1", repr("s"), "(1, 2)", "None", "[1]", "{1: 2}", "1.5", "True"]
 
@@ -303,6 +304,8 @@ class Gen:
         self.extra_tops = []
         self.n_annotated = 0
         self.ann_pool = ["Missing", "N0"]
+        self.need_sys = set()  # modules that test sys.version_info
+        self.need_wrap = set() # modules that use the functools.wraps decorator helper
         self.ns = {}           # module -> {name bound when its body has run: {"cat": "thing" | "ext" | "assigned" | "module-import", ...}}
         self.all_of = {}       # module -> its __all__ (list) or None
         self.static_only = {}  # module -> names the visitor records although nothing binds them (annotation-only)
@@ -405,6 +408,10 @@ class Gen:
             guarded = ["import typing", "if typing.TYPE_CHECKING:", f"    from {src} import {n} as Tc{n}"]
             self.meta[f"{mod}.typing"] = {"form": "extimport", "target": "typing"}
             self.meta[f"{mod}.Tc{n}"] = {"form": "typeguarded", "target": f"{src}.{n}"}
+            if rng.random() < 0.3:
+                # ... with a runtime fallback in the else branch: the visitor keeps the import, CPython executes the assignment (F12)
+                guarded += ["else:", f"    Tc{n} = {FALLBACK}"]
+                self.meta[f"{mod}.Tc{n}"]["rebind"] = [["import", 1, 0], ["assign", 1, 1]]
             self.ann_pool = [f"Tc{n}", f"Tc{n}", "Missing", "N0"]
         kit = None
         self.ext[mod] = {}
@@ -433,6 +440,9 @@ class Gen:
             body.append(f"{name} = {value}")
             self.meta[f"{mod}.{name}"] = {"form": ["value", "mod"], "value": value}
             exports[name] = {"kind": "value", "defmod": mod, "defname": name, "chain": []}
+            if rng.random() < 0.08:
+                body += ["try:", "    pass", "except ImportError:", f"    {name} = {FALLBACK}"]
+                self.meta[f"{mod}.{name}"]["rebind"] = [["assign", 0, 1], ["assign", 1, 0]]
         for i in range(rng.randint(1, 3)):
             name = f"f{i}{tag}"
             is_async = rng.random() < 0.3
@@ -442,6 +452,10 @@ class Gen:
             body += render_doc(d, 4) or ["    pass"]
             self.meta[f"{mod}.{name}"] = {"form": ["func", "mod", is_async], "doc": d, "sig": sig, "bound": False}
             exports[name] = {"kind": "asyncfunc" if is_async else "func", "defmod": mod, "defname": name, "chain": []}
+            if rng.random() < 0.08:
+                body += ["if sys.version_info < (3, 0):", f"    {name} = {FALLBACK}"]
+                self.need_sys.add(mod)
+                self.meta[f"{mod}.{name}"]["rebind"] = [["def", 0, 1], ["assign", 1, 0]]
         # imports from lower modules come after this module's own functions/values and before its classes (imported bases)
         body += self.gen_imports(mod, init, exports)
         local_classes = []          # [(name, info)] in definition order
@@ -453,6 +467,11 @@ class Gen:
             body += lines
             local_classes.append((name, self.cinfo[(mod, name)]))
             exports[name] = {"kind": "class", "defmod": mod, "defname": name, "chain": []}
+            if rng.random() < 0.06 and i > 0:
+                # (only a class that no later class statement of this module can name as a base... the last ones)
+                body += ["if sys.version_info < (3, 0):", f"    {name} = {FALLBACK}"]
+                self.need_sys.add(mod)
+                self.meta[f"{mod}.{name}"]["rebind"] = [["def", 0, 1], ["assign", 1, 0]]
         # names bound by assignment to something that is not a plain value; annotated names with and without a value
         self.static_only[mod] = []
         funcs = [(n, o) for n, o in exports.items() if o["kind"] in ("func", "asyncfunc") and not o["chain"]]
@@ -502,10 +521,18 @@ class Gen:
             body.append(f"__all__ = {all_names!r}")
             self.meta[f"{mod}.__all__"] = {"form": ["value", "mod"], "value": repr(all_names)}
         L += [stmt for _, stmt, _ in stars]
+        if mod in self.need_wrap:
+            need_functools = True
+            body[:0] = [f"def _wr{tag}(fn):", "    @functools.wraps(fn)", "    def w(*a, **k):", "        return fn(*a, **k)", "    return w"]
+            self.meta[f"{mod}._wr{tag}"] = {"form": ["func", "mod", False], "doc": None, "sig": "fn", "bound": False}
         if need_functools:
             L.append("import functools")
             self.meta[f"{mod}.functools"] = {"form": "extimport", "target": "functools"}
             self.ext[mod]["functools"] = "functools"
+        if mod in self.need_sys:
+            L.append("import sys")
+            self.meta[f"{mod}.sys"] = {"form": "extimport", "target": "sys"}
+            self.ext[mod]["sys"] = "sys"
         L += guarded
         L += body
         self.files[self.path_of(mod, init)] = "\n".join(L) + "\n"
@@ -521,6 +548,9 @@ class Gen:
                 ns[n] = {"cat": "thing", "o": o}
         for n, t in self.ext[mod].items():
             ns[n] = {"cat": "ext", "target": t}
+        for k, m in self.meta.items():
+            if k.startswith(mod + ".Tc") and m.get("rebind"):
+                ns[k[len(mod) + 1:]] = {"cat": "f12", "source": k}
         if f"{mod}.me_{tag}" in self.meta:
             ns[f"me_{tag}"] = {"cat": "module-import", "target": mod}
         own = set(ns) | set(self.static_only[mod]) | {k[len(mod) + 1:] for k in self.meta if k.startswith(mod + ".") and "." not in k[len(mod) + 1:]}
@@ -530,9 +560,12 @@ class Gen:
             brought = self.star_names(src)
             self.meta[mod]["stars"].append({"src": src, "imp": imp, "init": init, "names": brought})
             for n in brought + [x for x in self.star_static_only(src) if x not in brought]:
-                if n in own:
-                    continue
                 e = self.ns[src].get(n)
+                if n in own:
+                    own_meta = self.meta.get(f"{mod}.{n}", {})
+                    if e and e["cat"] == "f12" and own_meta.get("form") == "typeguarded" and not own_meta.get("rebind"):
+                        ns[n] = dict(e)     # only a TYPE_CHECKING import of its own: the value the wildcard import brought stays bound
+                    continue
                 hop = {"mod": mod, "init": init, "imp": [imp[0], imp[1], n, []], "cur": mod, "src": src, "srcname": n}
                 if e is None:
                     # only the visitor has this name in the source module (annotation without value)
@@ -676,12 +709,20 @@ class Gen:
                     L.append(f"{ind1}{name}: {'typing.ClassVar[int]' if cv else 'int'}" + (" = 2" if hv else ""))
                     self.meta[f"{path}.{name}"] = {"form": ["annotated", "cls", 1 if cv else 0, 1 if hv else 0]}
         forms = ["method", "method", "async_method", "static", "async_static", "classm", "async_classm", "prop", "prop_setter", "cached", "init"]
+        forms += [f for f in ("wrapped_method", "wrapped_classm", "wrapped_static") if rng.random() < 0.25]
+        wr = "_wr" + ("p" if mod == self.pkg else TAGS[mod.rsplit(".", 1)[1]])
         for i, form in enumerate(rng.sample(forms, rng.randint(1, 5))):
             name = "__init__" if form == "init" else f"m{i}"
             dd = gen_doc(rng)
+            wrapped = form.startswith("wrapped_")
+            if wrapped:
+                # a functools.wraps decorator below staticmethod / classmethod / nothing: ObjectNode unwraps down to the written function
+                form = form[8:]
+                self.need_wrap.add(mod)
+                need_functools = True
             is_async = form.startswith("async_")
             base = form[6:] if is_async else form
-            pre = "async def" if is_async else "def"
+            pre = (f"@{wr}\n{ind1}" if wrapped else "") + ("async def" if is_async else "def")
             dl = render_doc(dd, 4 * depth + 8)
             if base in ("method", "init"):
                 sig, src_sig, ret = self.sig_pair("self")
@@ -692,15 +733,15 @@ class Gen:
                     self.meta[f"{path}.inst_attr"] = {"form": "instance"}
                 elif not dl:
                     L.append(f"{ind1}    pass")
-                self.meta[f"{path}.{name}"] = {"form": ["func", "cls", is_async], "doc": dd, "sig": sig, "bound": False}
+                self.meta[f"{path}.{name}"] = {"form": ["func", "cls", is_async], "doc": dd, "sig": sig, "bound": False, "wrapped": wrapped}
             elif base == "static":
                 sig, src_sig, ret = self.sig_pair()
                 L += [f"{ind1}@staticmethod", f"{ind1}{pre} {name}({src_sig}){ret}:"] + (dl or [f"{ind1}    pass"])
-                self.meta[f"{path}.{name}"] = {"form": ["static", is_async], "doc": dd, "sig": sig, "bound": False}
+                self.meta[f"{path}.{name}"] = {"form": ["static", is_async], "doc": dd, "sig": sig, "bound": False, "wrapped": wrapped}
             elif base == "classm":
                 sig, src_sig, ret = self.sig_pair("cls")
                 L += [f"{ind1}@classmethod", f"{ind1}{pre} {name}({src_sig}){ret}:"] + (dl or [f"{ind1}    pass"])
-                self.meta[f"{path}.{name}"] = {"form": ["classm", is_async], "doc": dd, "sig": sig, "bound": True}
+                self.meta[f"{path}.{name}"] = {"form": ["classm", is_async], "doc": dd, "sig": sig, "bound": True, "wrapped": wrapped}
             elif base in ("prop", "prop_setter"):
                 L += [f"{ind1}@property", f"{ind1}def {name}(self):"] + dl + [f"{ind1}    return 1"]
                 if base == "prop_setter":
@@ -762,11 +803,24 @@ class Gen:
 
     def add_from_import(self, mod, init, exports, src, name, o, bound, L, force_abs=False):
         stmt, imp = self.render_import(mod, init, src, name, bound, force_abs=force_abs)
-        L.append(stmt)
+        rebind = None
+        r = self.rng.random()
+        if r < 0.08:
+            # the optional-accelerator idiom: the import succeeds, the fallback in the handler is never executed
+            L += ["try:", f"    {stmt}", "except ImportError:", f"    {bound} = {FALLBACK}"]
+            rebind = [["import", 0, 1], ["assign", 1, 0]]
+        elif r < 0.16:
+            L += [stmt, "if sys.version_info < (3, 0):", f"    {bound} = {FALLBACK}"]
+            self.need_sys.add(mod)
+            rebind = [["import", 0, 1], ["assign", 1, 0]]
+        else:
+            L.append(stmt)
         hop = {"mod": mod, "init": init, "imp": imp, "cur": mod, "src": src, "srcname": name}
         chain = [hop] + o["chain"]
         # (the key may be a submodule's own path: `from . import leaf` -- keep that module's docstring entry)
         self.meta.setdefault(f"{mod}.{bound}", {}).update({"form": ["imported", "mod", o["kind"]], "chain": chain, "origin": o, "name": bound})
+        if rebind:
+            self.meta[f"{mod}.{bound}"]["rebind"] = rebind
         exports[bound] = {"kind": o["kind"], "defmod": o["defmod"], "defname": o["defname"], "chain": chain}
 
     def gen_imports(self, mod, init, exports):
@@ -1136,6 +1190,35 @@ def classify(diff, gen, ctx, dyn_tree=None):
             out = ctx.model([import_query(gen, p, stmt)])[0]
             if out != ["bad-input"] and out[3] == 1 and out[2] == ["nothing"] and (norm_member(out[1]) == enc_member_impl(a) or form == "starred"):
                 return "C17-F6"
+    if meta.get("rebind") and what == "alias-vs-object" and isinstance(a, dict) and a["t"] == "alias" and b["t"] == "attribute" and gen is not None:
+        # F12: the visitor keeps the first binding of an if/else (or try/except) although CPython executes the other branch
+        if not have_model:
+            return "C17-F12"
+        out = ctx.model([["rebind", meta["rebind"]]])[0]
+        if out != ["bad-input"] and out[2] == 1 and out[0] == ["import"] and out[1] == ["assign"]:
+            return "C17-F12"
+    if form == "typeguarded" and not meta.get("rebind") and what == "alias-vs-object" and isinstance(a, dict) and a.get("runtime") is False \
+            and b["t"] == "attribute" and gen is not None:
+        # F12 through a wildcard import: the module's own TYPE_CHECKING-only import of the name, and the runtime value brought by `import *`
+        holder, nm = p.rsplit(".", 1)
+        for star in gen.meta.get(holder, {}).get("stars") or []:
+            e = gen.ns.get(star["src"], {}).get(nm)
+            if nm in star["names"] and e and e.get("cat") == "f12":
+                src_meta = gen.meta.get(e["source"], {})
+                if src_meta.get("rebind") and (not have_model or ctx.model([["rebind", src_meta["rebind"]]])[0][2] == 1):
+                    return "C17-F12"
+    if form == "starred" and meta.get("cat") == "f12" and what == "only-dynamic" and b["t"] == "attribute" and gen is not None:
+        src_meta = gen.meta.get(meta["source"], {})
+        if src_meta.get("rebind") and (not have_model or ctx.model([["rebind", src_meta["rebind"]]])[0][2] == 1):
+            return "C17-F12"
+    if what == "params" and meta.get("wrapped") and isinstance(form, list) and form[0] == "classm" and b == [] and gen is not None:
+        # F13: a class method over a functools.wraps decorator: getsignature(node.obj.__func__) raises on the unwrapped function, swallowed
+        if not have_model:
+            return "C17-F13"
+        args = abstract_arguments(ast.parse(f"def f({meta['sig']}): ...\n").body[0].args)
+        out = ctx.model([["params", args]])[0]
+        if out != ["bad-input"] and out[0] == ["ok", params_from_summary(a)]:
+            return "C17-F13"
     if isinstance(form, list) and form[0] in ("assigned", "annotated") and gen is not None:
         # F9: a name bound by assignment to a callable / class / descriptor; F10: an annotation without value, outside the
         # "instance attribute" exception.  Both verdicts and both members must be the model's.
@@ -1337,6 +1420,27 @@ def check_package(ctx, gen, root, st, dy, a, b):
                     ctx.tie_failure("correspondence", "dynamic_doc(model) vs inspected Docstring.value", {"model": out[2], "impl": da["doc"]}, {"raw": raw, "path": path})
                 ctx.observe("doc_shape", f"first_blank={out[3]} differ={int(out[1] != out[2])}")
             ask(["doc", doc_abstract(lines)], cb_doc)
+        if meta.get("rebind"):
+            stmts = meta["rebind"]
+
+            def cb_rebind(out, path=path, stmts=stmts, sa=sa, da=da, meta=meta):
+                ctx.count("rebind_ties")
+                ctx.observe("rebind", "/".join(f"{k}{b}{t}" for k, b, t in stmts) + f" F12={out[2]}")
+                kind_of = lambda m: None if m is None else {"alias": "import", "function": "def", "class": "def", "attribute": "assign"}.get(m["t"])
+                # (a name that is also a submodule is overwritten by the loader: the agent's own member is not observable)
+                if path not in gen.files_mods and [kind_of(sa)] != out[0]:
+                    ctx.tie_failure("correspondence", "visit_all(model) vs the member the visitor keeps", {"model": out[0], "impl": kind_of(sa)}, {"path": path, "stmts": stmts})
+                live = live_object(path)
+                executed = any(k == "assign" and t for k, b, t in stmts[1:])
+                if (live == int(FALLBACK) and type(live) is int) != executed:
+                    ctx.tie_failure("oracle", "generated branch is / is not taken vs the value bound at runtime", {"generator": executed, "cpython": repr(live)[:60]}, {"path": path, "stmts": stmts})
+                origin_value = isinstance(meta.get("form"), list) and meta["form"][0] == "imported" and meta["form"][2] == "value"
+                # (F4: a function / class of the underscore twin is inlined by the inspector; reported by the direct comparison)
+                f4 = bool(meta.get("origin")) and meta.get("chain") and meta["chain"][0]["mod"] != meta["origin"]["defmod"] \
+                    and same_components(meta["chain"][0]["mod"], meta["origin"]["defmod"])
+                if da is not None and da["t"] != "module" and not origin_value and not f4 and [kind_of(da)] != out[1]:
+                    ctx.tie_failure("correspondence", "run_all(model) vs the member the inspector creates", {"model": out[1], "impl": kind_of(da)}, {"path": path, "stmts": stmts})
+            ask(["rebind", stmts], cb_rebind)
         if form in ("selfimport", "builtinimport"):
             def cb_imps(out, path=path, sa=sa, da=da, form=form):
                 ctx.count("import_stmt_ties")
@@ -1390,7 +1494,7 @@ def check_package(ctx, gen, root, st, dy, a, b):
 
         def cb_form(out, path=path, form=form, prims=prims, sa=sa, da=da, meta=meta):
             ctx.count("form_ties")
-            if sorted(out[0]) != prims:
+            if sorted(out[0]) != prims and not meta.get("wrapped"):
                 ctx.tie_failure("oracle", "runtime_features(model) vs introspection of the generated code", {"model": sorted(out[0]), "cpython": prims}, {"path": path, "form": form})
             if form[0] != "imported":
                 if sa is not None and norm_member(out[1]) != enc_member_impl(sa):
@@ -1535,7 +1639,8 @@ def check_package(ctx, gen, root, st, dy, a, b):
                 ctx.observe("n_params", len(out[2]))
                 if sa is not None and sa["t"] == "function" and out[0] != ["ok", params_from_summary(sa["params"])]:
                     ctx.tie_failure("correspondence", "visitor_parameters(model) vs static Function.parameters", {"model": out[0], "impl": sa["params"]}, {"path": path, "sig": meta["sig"]})
-                if da is not None and da["t"] == "function" and out[1] != params_from_summary(da["params"]):
+                f13 = meta.get("wrapped") and meta["form"][0] == "classm" and da is not None and da.get("params") == []    # known F13; the direct comparison reports it
+                if da is not None and da["t"] == "function" and not f13 and out[1] != params_from_summary(da["params"]):
                     ctx.tie_failure("correspondence", "inspector_parameters(model) vs inspected Function.parameters", {"model": out[1], "impl": da["params"]}, {"path": path, "sig": meta["sig"]})
                 fn = parent.__dict__[name]
                 fn = fn.__func__ if isinstance(fn, (staticmethod, classmethod)) else fn
@@ -1977,6 +2082,7 @@ WITNESS_FILES = {
     "_a.py": "def tw(): ...\n",
     "a.py": "from {pkg}._a import tw\n",
     "gen.py": "from typing import Generic, List, TypeVar\nT = TypeVar('T')\nclass G(Generic[T]): ...\nclass L(List[int]): ...\nclass K(Generic[T], G[T]): ...\n",
+    "w12.py": "import functools\nimport typing\nif typing.TYPE_CHECKING:\n    from {pkg}._a import tw as T\nelse:\n    T = None\ndef deco(fn):\n    @functools.wraps(fn)\n    def w(*a, **k): return fn(*a, **k)\n    return w\nclass C:\n    @classmethod\n    @deco\n    def cm(cls, a, b=1): ...\n",
     "w9.py": "import functools\nimport typing\nimport _io\nimport {pkg}.w9 as me\ndef h(a): ...\nlam = lambda a: a\npart = functools.partial(h)\nx: int\nclass K:\n    c: typing.ClassVar[int]\n",
 }
 
@@ -1995,6 +2101,8 @@ def replay_witnesses(ctx):
             "C17-F9": st["w9.lam"].kind.value == "attribute" and dy["w9.lam"].kind.value == "function" and st["w9.part"].kind.value == "attribute"
                       and dy["w9"].members["part"].is_alias and dy["w9"].members["part"].target_path == "functools.part",
             "C17-F10": "x" in st["w9"].members and "x" not in dy["w9"].members and "c" in st["w9.K"].members and "c" not in dy["w9.K"].members,
+            "C17-F12": st["w12"].members["T"].is_alias and dy["w12"].members["T"].kind.value == "attribute",
+            "C17-F13": len(st["w12.C.cm"].parameters) == 3 and len(dy["w12.C.cm"].parameters) == 0,
             "C17-F8": ([base_path(st["gen.L"], x) for x in st["gen.L"].bases], [str(x) for x in dy["gen.L"].bases],
                        [base_path(st["gen.K"], x) for x in st["gen.K"].bases], [str(x) for x in dy["gen.K"].bases])
                       == (["typing.List"], ["builtins.list", "typing.Generic"], ["typing.Generic", f"{pkg}.gen.G"], [f"{pkg}.gen.G"]),
